@@ -45,7 +45,7 @@ def run(ctx):
     try:
         gen = ctx.tlc("rowdelete", "RowDelete", "Gen_%s.cfg" % size, coverage=ctx.quick(), timeout=2400, workers=6)
         neg = ctx.tlc("rowdelete", "RowDelete", "Neg_small.cfg", timeout=1200, workers=6, allow_violation=True)
-        ovl = ctx.tlc("rowdelete", "Overlap", "Overlap_small.cfg", coverage=ctx.quick(), timeout=1200, workers=6)
+        ovl = ctx.tlc("rowdelete", "Overlap", "Overlap_%s.cfg" % size, coverage=ctx.quick(), timeout=1200, workers=6)   # same row universe as Gen_<size>
         ovn = ctx.tlc("rowdelete", "Overlap", "OverlapNeg_small.cfg", timeout=1200, workers=6, allow_violation=True)
     finally:
         th.join()
@@ -80,7 +80,7 @@ def run(ctx):
                 raise InfraError("vacuous model: Overlap action %s never fired" % a)
     if not overlaps:
         raise InfraError("Overlap.tla emitted no behaviour of the replayable family")
-    ctx.note("tlc_overlap", {"cfg": "Overlap_small.cfg", "distinct": ovl.distinct, "generated": ovl.generated, "depth": ovl.depth,
+    ctx.note("tlc_overlap", {"cfg": "Overlap_%s.cfg" % size, "distinct": ovl.distinct, "generated": ovl.generated, "depth": ovl.depth,
                              "invariants": ["UnselectedStay", "SelectedGone", "CountsAddUp"], "replayable_behaviours": len(overlaps),
                              "negative_control": {"cfg": "OverlapNeg_small.cfg", "violated": ovn.violated}})
     # vacuity of the generated set: every file class (which of T/F/N occur in a file) must be present
@@ -102,7 +102,7 @@ def run(ctx):
             always.append(c)
         else:
             groups.setdefault((c["lay"], "".join(c["tv"]), c["has_const"], '"c": "t"' in json.dumps(c["p"])), []).append(c)
-    per, cap = (1, 800) if ctx.quick() else (2, 9000)
+    per, cap = (1, 800) if ctx.quick() else (2, 4000)
     chosen = []
     for k in sorted(groups):
         g = groups[k]
@@ -116,8 +116,12 @@ def run(ctx):
     ctx.log("TLC emitted %d cases, %d distinct (layout, truth vector) keys, replaying %d" % (len(cases), len(groups), len(chosen)))
     sp = ctx.path("cases.json")
     overlaps.sort(key=lambda t: json.dumps(t, sort_keys=True))
-    if ctx.quick() and len(overlaps) > 150:
-        overlaps = rnd.sample(overlaps, 150)
+    ocap = 150 if ctx.quick() else 400
+    if len(overlaps) > ocap:
+        overlaps = rnd.sample(overlaps, ocap)
+    for t in overlaps:
+        if len(t["tva"]) != len(ds["rows"]) or len(t["tvb"]) != len(ds["rows"]):
+            raise InfraError("Overlap behaviours and the dataset have different row universes")
     json.dump({"dataset": ds, "cases": chosen, "overlaps": overlaps}, open(sp, "w"))
     rp = ctx.path("result.json")
     work = ctx.path("work")
